@@ -7,7 +7,23 @@ COMMON = [A_CPY, A_WHEEL, A_INT]
 
 A_PROTO = "A-PROTO: protobuf (upb) message objects behave as modelled in pyvc/proto_model.py (constructor kwargs = field sets, proto3 defaults, uint32 range -> ValueError, oneof exclusivity, presence propagation to the parent, messages truthy, strings UTF-8 encodable); wire layout facts: varint(len) framing of write_delimited, field 1/wire type 2 tag 0x0A for RdfStreamFrame.rows and RdfStreamRow.options"
 
+A_OD = "A-OD: collections.OrderedDict as (membership, value, length, recency rank) with the cardinality fact used for LRU stability"
+A_STR = "A-STR: str.rpartition(sep) splits at the last occurrence (head ++ sep ++ tail == s, tail free of sep)"
+A_SUB = "A-SUBCLASS: only the term / encoder / adapter classes defined in /repo/pyjelly; objects of foreign classes are the opaque `Other` term"
+QUOTED = "nested denotation of quoted triples is not carried by the contracts (completeness, entry-row accounting and LRU accounting are); it is covered by the bounded net only"
+ENCODER = COMMON + [A_OD, A_STR, A_SUB, QUOTED]
+
 PROPS = {
+    "C03": {"level": "proof", "assumptions": ENCODER + ["stream/flow/generator layer (options row first, frame flushing, graph bracketing) is covered by the bounded net, not yet by contracts"],
+            "explanation": "encoder refines the Jelly spec tables: every entry row is exactly a spec_assign that accounts for the table change, every id written resolves by the spec's delta rules to the intended string in the final tables of the statement (under C01's premise), entry rows precede the statement row, quoted triples are complete"},
+    "C19": {"level": "proof", "assumptions": ENCODER,
+            "explanation": "strongest-postcondition clauses: entry row iff miss, zero id iff the delta rule allows it, slot elided iff equal to the previous term; split at the last separator"},
+    "C01": {"level": "proof", "assumptions": ENCODER + ["decoder side and stream/flow layer: bounded net only in this check so far"],
+            "explanation": "statement-level lemma on the real encode_spo/encode_triple/encode_quad: under the premise that every enabled table has room for the statement, decoding the statement row by the spec rules in the final tables gives the input terms (LRU stability via ghost counters)"},
+    "C18": {"level": "proof", "assumptions": ENCODER,
+            "explanation": "the same statement-level obligations without the premise; on the complement they are known to fail today (known finding D7), anything else is reported"},
+    "C20": {"level": "proof", "assumptions": ENCODER,
+            "explanation": "exceptional postconditions: exact raise conditions per term kind, tables stay well-formed on raise; 'no trace on raise' is the known finding D6"},
     "C08": {"level": "proof", "assumptions": COMMON + [A_PROTO],
             "explanation": "the real body of delimited_jelly_hint is executed symbolically under the premise 'the three bytes start a stream laid out as delimited(varint(L) ++ frame) or as a single frame whose first row is the options row', for all L and row lengths; the obligation is hint == framing"},
     "C13": {"level": "proof", "assumptions": COMMON + [A_PROTO, A_NOOPT],
